@@ -122,12 +122,24 @@ func (rc *recorder) jitter() {
 	}
 }
 
+// foreignGID is the goroutine that is touching a resource from outside any rerunner (0 = nobody).
+var foreignGID int64
+var foreignNodes = map[interface{}]bool{}
+
 // onRunLocked, when set by a scenario, is told about every "run.locked" (still under the rerunner's lock).
 var onRunLocked func(rr interface{}, stopped bool)
 
 func hook(point string, args ...interface{}) {
 	rc := rec
 	if rc == nil {
+		return
+	}
+	if point == "addout" && foreignGID != 0 && gate.GoID() == foreignGID {
+		// the driver itself touches a resource from a context without a rerunner
+		rc.mu.Lock()
+		rc.add(&Event{Ev: "touch", p1: args[0], B1: args[2].(bool), B2: args[3].(bool), gid: foreignGID})
+		foreignNodes[args[1]] = true // the throw-away node the touch was made with: nothing about it concerns the model
+		rc.mu.Unlock()
 		return
 	}
 	if point == "run.locked" {
@@ -439,6 +451,21 @@ func runScenario(rc *recorder, sh Shape, seed int64, maxBump, maxFail int, spawn
 	rc.mu.Lock()
 	rc.add(&Event{Ev: "quiesce"})
 	rc.mu.Unlock()
+	// with everything idle, long-lived resources are touched from a context that has no rerunner
+	// (reactive.AddDependency outside a computation): whoever still depends on them must not notice
+	for _, name := range sh.Res {
+		if r.Intn(2) == 0 {
+			foreignGID = gate.GoID()
+			rx.AddDependency(context.Background(), s.res[name], nil)
+			foreignGID = 0
+			if err := quiesce(base); err != nil {
+				return err
+			}
+			rc.mu.Lock()
+			rc.add(&Event{Ev: "quiesce"})
+			rc.mu.Unlock()
+		}
+	}
 	for _, name := range sh.RR {
 		stop(name)
 	}
@@ -488,6 +515,9 @@ func nameEvents(evs []*Event, sh Shape) ([]*Event, error) {
 					rrNames[f.p1] = f.R
 				}
 			}
+		}
+		if e.p1 != nil && foreignNodes[e.p1] {
+			continue
 		}
 		switch e.Ev {
 		case "name":
